@@ -257,7 +257,8 @@ def run(tier):
             unspec_diff += 1
             continue
         kind = "crash" if bad else ("log" if d.startswith("log") else "outcome")
-        rep.violation("%s fam=%s%s body=%s: %s" % (kind, v["fam"][0], " nested-cleanup" if v.get("nested") else "", body_text(v), d),
+        tags = (" nested-cleanup" if v.get("nested") else "") + (" cut-in-ite-condition" if v.get("condcut") else "")
+        rep.violation("%s fam=%s%s body=%s: %s" % (kind, v["fam"][0], tags, body_text(v), d),
                       {"vector": v, "diff": d, "program": pr.text, "query": pr.qtext})
     for v in vecs[:: max(1, len(vecs) // 5)]:
         rep.sample({"body": body_text(v), "status": v["status"],
